@@ -90,7 +90,9 @@ def estimator_part(ctx, fails):
                     ip.marginal_structural_model('A + ' + meta['covs'][0])
                     ip.fit(continuous_distribution=dist) if dist else ip.fit()
                     if otype == 'binary':
-                        return list(ip.risk_difference['RD']) + list(ip.risk_ratio['RR'])
+                        # the logistic MSM only: identity- and log-link binomial fits with a continuous covariate need not
+                        # converge, and then there is nothing to compare
+                        return list(ip.odds_ratio['OR'])
                     return list(ip.average_treatment_effect['ATE'])
                 if std == 'population' or ctx.rng.random() < 0.5:
                     both(f2, df, rep, 'IPTW.msm-with-covariate.%s.%s' % ('stabilized' if stab else 'unstabilized', std),
